@@ -84,6 +84,9 @@ func sameVal(a, b ssa.Value) bool {
 			return ka.Value.ExactString() == kb.Value.ExactString()
 		}
 	}
+	if ga, gb := loadedGlobal(pa), loadedGlobal(pb); ga != nil && ga == gb {
+		return true // two loads of the same package-level variable (assumed not modified concurrently)
+	}
 	ca, ok1 := pa.(*ssa.Call)
 	cb, ok2 := pb.(*ssa.Call)
 	if ok1 && ok2 {
